@@ -316,12 +316,11 @@ Theorem C14_copy_source_short_reported :
      forall t' e i, copy_current A NoFault bufsize xs = (t', e, i) -> e = CSrc /\ i = k).
 Proof.
   intros H A f bs xs. destruct (checked_all H) as [Hk Hf].
-  unfold copy_current. rewrite Hf. repeat split.
-  - exact (proj1 (copy_nil_means_complete A site_checked Hk f bs xs t' i H0)).
-  - exact (proj2 (copy_nil_means_complete A site_checked Hk f bs xs t' i H0)).
+  unfold copy_current. rewrite Hf. split; [|split].
+  - intros t' i E. exact (copy_nil_means_complete A site_checked Hk f bs xs t' i E).
   - intros Hs t' e i. exact (copy_source_short_reported A site_checked Hk f bs xs t' e i Hs).
-  - exact (proj1 (copy_short_reported_by_copying_call A site_checked bs xs k t' e i H0 H1 H2)).
-  - exact (proj2 (copy_short_reported_by_copying_call A site_checked bs xs k t' e i H0 H1 H2)).
+  - intros k Hbs Hfs t' e i E.
+    exact (copy_short_reported_by_copying_call A site_checked bs xs k t' e i Hbs Hfs E).
 Qed.
 
 (** liveness and destination faults on the copy path *)
